@@ -109,6 +109,8 @@ pub struct Case {
     /// an earlier debug session on the same server, ended before the judged one starts:
     /// 0 none, 1 ended by disconnect, 2 by dropping the connection, 3 by disconnect while the machine runs
     pub prelude: u8,
+    /// `initialize` without linesStartAt1 / columnsStartAt1: the protocol default (true) applies
+    pub omit_start_flags: bool,
 }
 
 impl Case {
@@ -119,7 +121,7 @@ impl Case {
             "ops": self.ops.iter().map(|o| o.to_json()).collect::<Vec<_>>(),
             "lines_start_at_1": self.lines_start_at_1,
             "sched_seed": format!("{:#x}", self.seed), "entropy_seed": format!("{:#x}", self.entropy_seed),
-            "knobs": self.knobs.to_json(), "end_with_drop": self.end_with_drop, "fast_client": self.fast_client, "prelude": self.prelude,
+            "knobs": self.knobs.to_json(), "end_with_drop": self.end_with_drop, "fast_client": self.fast_client, "prelude": self.prelude, "omit_start_flags": self.omit_start_flags,
         })
     }
     pub fn from_json(v: &Value) -> Option<Case> {
@@ -139,6 +141,7 @@ impl Case {
             end_with_drop: v.get("end_with_drop").and_then(|b| b.as_bool()).unwrap_or(false),
             fast_client: v.get("fast_client").and_then(|b| b.as_bool()).unwrap_or(false),
             prelude: v.get("prelude").and_then(|b| b.as_u64()).unwrap_or(0) as u8,
+            omit_start_flags: v.get("omit_start_flags").and_then(|b| b.as_bool()).unwrap_or(false),
         })
     }
 }
@@ -205,7 +208,12 @@ pub fn gen_program(rng: &mut Rng) -> String {
         body.push_str("    jsr sub0\n");
     }
     emit_block(rng, &mut body, 0, n_subs, true);
-    body.push_str("    brk\n");
+    // one program in six never ends: it waits in a one-instruction loop, as programs for these machines do
+    match rng.below(12) {
+        0 => body.push_str("spin:\n    jmp spin\n"),
+        1 => body.push_str("    lda #1\nspin:\n    bne spin\n"),
+        _ => body.push_str("    brk\n"),
+    }
     for s in 0..n_subs {
         body.push_str(&format!("sub{}:\n", s));
         let mut sub = String::new();
@@ -294,11 +302,12 @@ pub fn gen_case(seed: u64, k: u64) -> Case {
         };
         ops.push(op);
     }
+    let omit_start_flags = r.chance(1, 5);
     Case {
         program,
         initial_bps,
         ops,
-        lines_start_at_1: r.chance(1, 2),
+        lines_start_at_1: omit_start_flags || r.chance(1, 2),
         seed: rng::derive(seed, "c19.sched", k),
         entropy_seed: rng::derive(seed, "c19.entropy", k),
         knobs: ExecKnobs {
@@ -313,6 +322,7 @@ pub fn gen_case(seed: u64, k: u64) -> Case {
         end_with_drop: r.chance(1, 4),
         fast_client,
         prelude: if r.chance(1, 5) { 1 + r.below(3) as u8 } else { 0 },
+        omit_start_flags,
     }
 }
 
@@ -346,16 +356,24 @@ pub struct Frame {
 pub struct Reference {
     /// register writes by the client: (CYC at which the machine was halted, register, value)
     pub overrides: Vec<(u64, String, u8)>,
+    /// the uninterrupted run, computed lazily: programs may run for ever (`spin: jmp spin`)
     pub trace: Vec<TraceEntry>,
-    /// span of every pc of the trace: (path, begin line, begin col, end line, end col), 0-based
-    pub frames: BTreeMap<u16, Option<Frame>>,
+    /// the run has ended (BRK / failed assertion); otherwise the trace can be extended
+    pub finished: bool,
+    runner: Option<TestRunner>,
+    call_stack: Vec<u16>,
+    /// span of a pc: (path, begin line, begin col, end line, end col), 0-based; filled on demand
+    frames: BTreeMap<u16, Option<Frame>>,
     pub ok: bool,
     pub error: String,
     pub bp_ranges: BTreeMap<(usize, Option<usize>), Vec<Range<usize>>>,
     pub n_lines: usize,
 }
 
+/// entries computed up front
 pub const MAX_TRACE: usize = 3000;
+/// entries a reference run is extended to at most
+pub const HARD_TRACE_CAP: usize = 200_000;
 
 pub fn build_reference(program: &str, path: &str) -> Reference {
     build_reference_with(program, path, &[])
@@ -364,20 +382,43 @@ pub fn build_reference(program: &str, path: &str) -> Reference {
 /// The uninterrupted run, with the client's register writes applied at the positions at which
 /// the (halted) machine received them.
 pub fn build_reference_with(program: &str, path: &str, overrides: &[(u64, String, u8)]) -> Reference {
-    let mut reference = Reference { overrides: overrides.to_vec(), trace: vec![], frames: BTreeMap::new(), ok: false, error: String::new(), bp_ranges: BTreeMap::new(), n_lines: program.lines().count() };
+    let mut reference = Reference {
+        overrides: overrides.to_vec(),
+        trace: vec![],
+        finished: false,
+        runner: None,
+        call_stack: vec![],
+        frames: BTreeMap::new(),
+        ok: false,
+        error: String::new(),
+        bp_ranges: BTreeMap::new(),
+        n_lines: program.lines().count(),
+    };
     let src = InMemoryParsingSource::new().add(path, program).into();
-    let mut runner = match TestRunner::new(src, Path::new(path), &"t".into()) {
-        Ok(r) => r,
+    match TestRunner::new(src, Path::new(path), &"t".into()) {
+        Ok(r) => reference.runner = Some(r),
         Err(e) => {
             reference.error = e.to_string();
             return reference;
         }
     };
-    let codegen = runner.codegen();
-    let mut call_stack: Vec<u16> = vec![];
-    loop {
+    reference.extend_to_len(MAX_TRACE);
+    reference.ok = reference.error.is_empty();
+    reference
+}
+
+impl Reference {
+    /// Execute one more instruction of the reference run (false: the run is over or cannot go on).
+    fn extend_one(&mut self) -> bool {
+        if self.finished || !self.error.is_empty() || self.trace.len() >= HARD_TRACE_CAP {
+            return false;
+        }
+        let runner = match self.runner.as_mut() {
+            Some(r) => r,
+            None => return false,
+        };
         let now = runner.num_cycles() as u64;
-        for (c, name, value) in overrides {
+        for (c, name, value) in &self.overrides {
             if *c == now {
                 let cpu = runner.cpu_mut();
                 match name.as_str() {
@@ -390,12 +431,6 @@ pub fn build_reference_with(program: &str, path: &str, overrides: &[(u64, String
         }
         let cpu = runner.cpu();
         let pc = cpu.get_program_counter();
-        let opcode = {
-            let cg = codegen.lock().unwrap();
-            let _ = &cg;
-            0u8
-        };
-        let _ = opcode;
         let entry = TraceEntry {
             cycles: runner.num_cycles() as u64,
             pc,
@@ -405,13 +440,9 @@ pub fn build_reference_with(program: &str, path: &str, overrides: &[(u64, String
             sp: cpu.get_stack_pointer(),
             flags: cpu.get_status_register(),
             opcode: 0,
-            return_to: call_stack.last().cloned(),
+            return_to: self.call_stack.last().cloned(),
         };
-        reference.trace.push(entry);
-        if reference.trace.len() > MAX_TRACE {
-            reference.error = "program too long".into();
-            return reference;
-        }
+        self.trace.push(entry);
         let sp_before = runner.cpu().get_stack_pointer();
         match runner.execute_instruction() {
             Ok(ExecuteResult::Running) => {
@@ -419,36 +450,51 @@ pub fn build_reference_with(program: &str, path: &str, overrides: &[(u64, String
                 let new_pc = runner.cpu().get_program_counter();
                 // jsr pushes two bytes and jumps; rts pops two bytes
                 if sp_after == sp_before.wrapping_sub(2) && new_pc != pc.wrapping_add(1) {
-                    call_stack.push(pc.wrapping_add(3));
-                    reference.trace.last_mut().unwrap().opcode = 0x20;
+                    self.call_stack.push(pc.wrapping_add(3));
+                    self.trace.last_mut().unwrap().opcode = 0x20;
                 } else if sp_after == sp_before.wrapping_add(2) {
-                    call_stack.pop();
-                    reference.trace.last_mut().unwrap().opcode = 0x60;
+                    self.call_stack.pop();
+                    self.trace.last_mut().unwrap().opcode = 0x60;
                 }
+                true
             }
-            Ok(ExecuteResult::TestSuccess(_)) => break,
-            Ok(ExecuteResult::TestFailed(_, _)) => break,
+            Ok(ExecuteResult::TestSuccess(_)) | Ok(ExecuteResult::TestFailed(_, _)) => {
+                self.finished = true;
+                false
+            }
             Err(e) => {
-                reference.error = e.to_string();
-                return reference;
+                self.error = e.to_string();
+                false
             }
         }
     }
-    // source locations and breakpoint ranges, through the same source map the server uses
-    let cg = codegen.lock().unwrap();
-    let pcs: BTreeSet<u16> = reference.trace.iter().map(|t| t.pc).collect();
-    for pc in pcs {
-        let f = cg.source_map().address_to_offset(pc as usize).map(|o| {
-            let sl = cg.tree().code_map.look_up_span(o.span);
-            Frame { path: sl.file.name().to_string(), line: sl.begin.line, column: sl.begin.column, end_line: sl.end.line, end_column: sl.end.column }
-        });
-        reference.frames.insert(pc, f);
-    }
-    reference.ok = true;
-    reference
-}
 
-impl Reference {
+    pub fn extend_to_len(&mut self, n: usize) {
+        while self.trace.len() < n && self.extend_one() {}
+    }
+
+    /// whether the trace covers everything the run can ever do
+    pub fn complete(&self) -> bool {
+        self.finished
+    }
+
+    /// source span of a pc, through the same source map the server uses
+    pub fn frame_of(&mut self, pc: u16) -> Option<Frame> {
+        if let Some(f) = self.frames.get(&pc) {
+            return f.clone();
+        }
+        let f = self.runner.as_ref().and_then(|runner| {
+            let cg = runner.codegen();
+            let cg = cg.lock().unwrap();
+            cg.source_map().address_to_offset(pc as usize).map(|o| {
+                let sl = cg.tree().code_map.look_up_span(o.span);
+                Frame { path: sl.file.name().to_string(), line: sl.begin.line, column: sl.begin.column, end_line: sl.end.line, end_column: sl.end.column }
+            })
+        });
+        self.frames.insert(pc, f.clone());
+        f
+    }
+
     pub fn ranges_for(&mut self, program: &str, path: &str, line: usize, col: Option<usize>) -> Vec<Range<usize>> {
         if let Some(r) = self.bp_ranges.get(&(line, col)) {
             return r.clone();
@@ -467,8 +513,25 @@ impl Reference {
         self.bp_ranges.insert((line, col), v.clone());
         v
     }
-    pub fn index_of_cycles(&self, cyc: u64) -> Option<usize> {
-        self.trace.iter().position(|t| t.cycles == cyc)
+
+    /// The position of the run at which the cycle counter reads `cyc` (cycles only grow).
+    pub fn index_of_cycles(&mut self, cyc: u64) -> Option<usize> {
+        while self.trace.last().map(|t| t.cycles < cyc).unwrap_or(true) && self.extend_one() {}
+        self.trace.binary_search_by(|t| t.cycles.cmp(&cyc)).ok()
+    }
+
+    /// first position >= `from` at which the program counter is `target`
+    pub fn find_pc_from(&mut self, from: usize, target: u16) -> Option<usize> {
+        let mut k = from;
+        loop {
+            if k >= self.trace.len() && !self.extend_one() && k >= self.trace.len() {
+                return None;
+            }
+            if self.trace[k].pc == target {
+                return Some(k);
+            }
+            k += 1;
+        }
     }
 }
 
@@ -694,9 +757,12 @@ impl<'a> Session<'a> {
         self.v.terminated = true;
         if self.view == View::Running && !self.pause_sent && self.v.found.is_none() {
             if let Some(i0) = self.run_from.take() {
-                let end = self.reference.trace.len();
-                self.count("terminated_run_checked");
-                self.check_free_run(i0, end);
+                self.reference.extend_to_len(HARD_TRACE_CAP);
+                if self.reference.complete() {
+                    let end = self.reference.trace.len();
+                    self.count("terminated_run_checked");
+                    self.check_free_run(i0, end);
+                }
             }
         }
         self.view = View::Terminated;
@@ -713,24 +779,38 @@ impl<'a> Session<'a> {
         while self.dap.take_event("stopped").is_some() {}
     }
 
-    fn expected_after(&self, op: &Op, i: usize) -> usize {
-        let t = &self.reference.trace;
-        let last = t.len() - 1;
+    /// where a step from position `i` must end; None: not known within the reference budget
+    fn expected_after(&mut self, op: &Op, i: usize) -> Option<usize> {
+        self.reference.extend_to_len(i + 2);
+        let len = self.reference.trace.len();
+        let last = len - 1;
+        let complete = self.reference.complete();
+        // past the last instruction of a finished run the machine stays where it is
+        let next_one = if i + 1 < len { Some(i + 1) } else if complete { Some(last) } else { None };
+        let t_i = self.reference.trace[i].clone();
         match op {
-            Op::StepIn => (i + 1).min(last),
+            Op::StepIn => next_one,
             Op::Next => {
-                if t[i].opcode == 0x20 {
-                    let target = t[i].pc.wrapping_add(3);
-                    ((i + 1)..t.len()).find(|k| t[*k].pc == target).unwrap_or(last)
+                if t_i.opcode == 0x20 {
+                    let target = t_i.pc.wrapping_add(3);
+                    match self.reference.find_pc_from(i + 1, target) {
+                        Some(k) => Some(k),
+                        None if self.reference.complete() => Some(self.reference.trace.len() - 1),
+                        None => None,
+                    }
                 } else {
-                    (i + 1).min(last)
+                    next_one
                 }
             }
-            Op::StepOut => match t[i].return_to {
-                Some(target) => (i..t.len()).find(|k| t[*k].pc == target).unwrap_or(last),
-                None => i,
+            Op::StepOut => match t_i.return_to {
+                Some(target) => match self.reference.find_pc_from(i, target) {
+                    Some(k) => Some(k),
+                    None if self.reference.complete() => Some(self.reference.trace.len() - 1),
+                    None => None,
+                },
+                None => Some(i),
             },
-            _ => i,
+            _ => Some(i),
         }
     }
 
@@ -738,7 +818,7 @@ impl<'a> Session<'a> {
         let r = self.dap.request("stackTrace", json!({"threadId": 1}))?;
         let frames = r.get("body").and_then(|b| b.get("stackFrames")).and_then(|f| f.as_array()).cloned().unwrap_or_default();
         let pc = self.reference.trace[idx].pc;
-        let want = self.reference.frames.get(&pc).cloned().flatten();
+        let want = self.reference.frame_of(pc);
         self.count("frame_contains_pc");
         match (frames.first(), want) {
             (Some(f), Some(w)) => {
@@ -841,7 +921,7 @@ impl<'a> Session<'a> {
                 let r = self.dap.request(cmd, json!({"threadId": 1}))?;
                 if r.get("success").and_then(|s| s.as_bool()) == Some(true) {
                     let _ = self.dap.wait_event("stopped", Duration::from_secs(5));
-                    self.on_stopped(Some(exp))?;
+                    self.on_stopped(exp)?;
                 }
             }
             (Op::StackTrace, View::Stopped(i)) => self.check_stack_trace(i)?,
@@ -1057,7 +1137,11 @@ pub fn scenario(case: &Case, slot: &Arc<StdMutex<Option<Verdict>>>) {
             clock::sleep(Duration::from_millis(5));
         }
         let mut c = DapClient::connect(PORT, 400).ok_or(ClientErr::Closed)?;
-        c.request("initialize", json!({"clientID": "sim", "linesStartAt1": case.lines_start_at_1, "columnsStartAt1": case.lines_start_at_1}))?;
+        if case.omit_start_flags {
+            c.request("initialize", json!({"clientID": "sim"}))?;
+        } else {
+            c.request("initialize", json!({"clientID": "sim", "linesStartAt1": case.lines_start_at_1, "columnsStartAt1": case.lines_start_at_1}))?;
+        }
         let l = c.request("launch", json!({"workspace": WS, "testRunner": {"testCaseName": "t"}}))?;
         if l.get("success").and_then(|s| s.as_bool()) != Some(true) {
             return Err(ClientErr::Io(format!("launch failed: {}", l)));
